@@ -37,6 +37,7 @@ REQUIRED = {
         'template-round-trips': 16,
         'kind:spline/rise': 2, 'kind:spline/curves': 2, 'kind:peatclsm/rise': 2, 'kind:peatclsm/curves': 2,
         'targeted-datasets': 1,
+        'file-sets-checked-after-a-repeated-step': 2,
         'cli-output-file-name-reused': 10,
         'spline-sets-with-10+-knots': 2,
     }
@@ -288,6 +289,15 @@ def run_dataset(ctx, rng, index):
         pfile = curves_common.write_yaml(os.path.join(ctx.workdir, 'k{}_{}.yml'.format(index, kind)), params)
         for what in ('rise', 'curves'):
             check_file_set(ctx, db, params, pfile, kind, what, case, 'k{}_{}'.format(index, kind))
+    if index % 2 == 0:
+        # the user changes the grid step on the finished dataset and regenerates the files:
+        # refused (nothing changes) or accepted -- either way the files must still agree
+        status, exc = data.cli(['set-zeta-grid', db, '-d', data.num_arg(case['grid_step'] * 2, index)])
+        accepted = exc is None and status == 0
+        ctx.rec.hit('repeated-set-zeta-grid-' + ('accepted' if accepted else 'refused'))
+        keys_before = set(v['key'] for v in ctx.rec.violations)
+        check_file_set(ctx, db, params, pfile, kind, 'curves', dict(case, session='set-zeta-grid again'), 'k{}_again'.format(index))
+        ctx.rec.hit('file-sets-checked-after-a-repeated-step')
     os.remove(db)
 
 
